@@ -58,6 +58,9 @@ claimed["C15"] = dict(engine="vsim", category="exploration", design="DESIGN.md ย
 claimed["C17"] = dict(engine="vsim", category="exploration", design="DESIGN.md ยง3 C17", technique=SIM_TECH, note=SIM_NOTE + " Covers the in-system half of the statement (addresses reported for accepted connections, for their whole life, under churn). The conversion round-trip clause is a pure function of its input and is only covered to the extent these runs generate addresses; UDP sources are covered by C08 when claimed.",
    text="The simulated kernel fabricates the peer addresses handed to accept4, including zoned link-local IPv6 with existing and non-existing interface indexes, so the address conversion runs on generated input inside the running system and is compared at every callback. Found a garbage byte in the zone string of unknown interfaces (repaired).")
 
+claimed["C08"] = dict(engine="vsim", category="exploration", design="DESIGN.md ยง3 C08", technique=SIM_TECH, note=SIM_NOTE + " Datagram loss, duplication and reordering by the network are not modelled (the statement is about what the framework does with a datagram it received); recvfrom/sendto errno faults belong to C18.",
+   text="Seeded search over payload sizes, sender interleavings, consumption choices and reply operations with a per-datagram identity oracle: the simulated kernel records which datagram each recvfrom returned and every sendto the framework makes, so merged, split, carried-over or misaddressed datagrams are caught exactly; default and poll_opt builds.")
+
 not_applicable = {
  "C16": "pure function of a string / a few integers (parseProtoAddr, capacity normalisation, loop-count clamp): no schedule, clock, I/O or fault for a simulator to control; generating strings would be input fuzzing in simulator vocabulary (DESIGN.md ยง4)",
  "C20": "pure integer arithmetic (power-of-two helpers, size-class index, GFD pack/unpack): exhaustive enumeration or proof is the right tool, not simulation (DESIGN.md ยง4)",
